@@ -240,7 +240,24 @@ def run(ctx, res):
     info["places"]["sync_count"] = info["places"][sync_name]
     res.inventory["sync_counter"] = sync_name
     sync = tuple(hv[sync_name])
-    paused = bv.seq_bv("h_is_paused", 1)[0]
+    # the pause flag: the 1-bit loop-carried local named is_paused, else - by role - the only generalised flag that decides the iterations
+    # in which nothing happens; none identified = no iteration may be empty
+    if "is_paused" in hv and len(hv["is_paused"]) == 1:
+        paused = hv["is_paused"][0]
+    else:
+        E_ = 0
+        for o_ in outs:
+            if o_.kind == "stop" and not o_.state.eff and o_.state.ctr.get(("visit", info["header"]), 0):
+                E_ = Mx.OR(E_, o_.state.pc)
+        supE = set(Mx.support(E_)) if E_ not in (0, 1) else set()
+        flags_ = [bits_[0] for nm_, bits_ in hv.items() if len(bits_) == 1 and bits_[0] > 1 and Mx.var[bits_[0]] in supE and Mx.AND(E_, Mx.NOT(bits_[0])) == 0]
+        if len(flags_) == 1:
+            paused = flags_[0]
+        elif E_ == 0:
+            paused = 0
+        else:
+            res.errors.append("iterations in which nothing happens are not controlled by one identifiable flag: the pause rule is not decidable")
+            return
     charge = bv.seq_bv("charge", 8)
     sum0 = bv.seq_bv("sum0", 64)
     pre = bv.ult(sync, bv.const(K_SYNC, 64))      # invariant of the counter at the header
